@@ -19,12 +19,14 @@ type Profile struct {
 	V6        bool // allow the IPv6 listener variant
 	SlowCB    bool // slow lifecycle callbacks
 	Coincide  bool // coincidence mode: equal timeouts so that expiries collide (C15/C18)
+	LongAlloc bool // allocation lifetime 2 h so that permission/channel horizons are not cut short (C07)
+	Fragments []string // structured fragments mixed into the random steps: perm, chan, alloc
 }
 
 var lifetimes = []int64{-1, -1, -1, 0, 1, 2, 30, 59, 60, 61, 300, 599, 600, 601, 1800, 3599, 3600, 3601, 86400, 1 << 31, 1<<32 - 1}
 
 var allDefects = []string{
-	"nomi", "nomi-bare", "wrongpass", "otheruserpass", "unknownuser", "hmac-trunc", "hmac-ext", "hmac-flip", "altered",
+	"nomi", "nomi-bare", "wrongpass", "otheruserpass", "unknownuser", "unknownuser-emptykey", "hmac-trunc", "hmac-ext", "hmac-flip", "altered",
 	"no-username", "no-realm", "no-nonce", "nonce-random", "nonce-alphabet", "nonce-mac-flip", "nonce-ts-flip",
 	"nonce-old", "nonce-lower", "nonce-other-server", "other-realm",
 }
@@ -52,6 +54,9 @@ func genConfig(rt *rapid.T, p *Profile) Config {
 			rapid.SampledFrom([]int{0, 0, 0, 256, 512, 1024, 1500, 1600, 2048, 4096, 65535}),
 			rapid.IntRange(200, 4096),
 		).Draw(rt, "mtu")
+	}
+	if p.LongAlloc {
+		cfg.AllocLifetimeS = 7200
 	}
 	cfg.Strict = rapid.IntRange(0, 3).Draw(rt, "strict") == 0
 	maxc := p.MaxClient
@@ -247,8 +252,68 @@ func GenScript(rt *rapid.T, p *Profile) *Script {
 		}
 	}
 	for i := 0; i < n; i++ {
+		if len(p.Fragments) > 0 && rapid.IntRange(0, 5).Draw(rt, "frag") == 0 {
+			sc.Steps = append(sc.Steps, genFragment(rt, p, &sc.Cfg)...)
+
+			continue
+		}
 		sc.Steps = append(sc.Steps, genStep(rt, p, &sc.Cfg, i))
 	}
 
 	return sc
+}
+
+// genFragment draws a structured piece of history: install, refresh part-way, probe on both
+// sides of the final deadline, re-use after expiry.
+func genFragment(rt *rapid.T, p *Profile, cfg *Config) []Step {
+	c := rapid.IntRange(0, len(cfg.Clients)-1).Draw(rt, "fc")
+	peer := rapid.IntRange(0, 2).Draw(rt, "fpeer")
+	peer2 := (peer + 1 + rapid.IntRange(0, 1).Draw(rt, "fpeer2")) % 3
+	ch := rapid.IntRange(0, 2).Draw(rt, "fch")
+	ch2 := (ch + 1) % 3
+	margin := rapid.SampledFrom([]int{1, 1, 1, 2}).Draw(rt, "fmargin")
+	data := func(op string) Step {
+		return Step{Op: op, C: c, P: []int{peer}, Ch: ch, N: rapid.IntRange(0, 40).Draw(rt, "fn"), Seed: rapid.Uint64Range(0, 1<<16).Draw(rt, "fseed"), Life: -1}
+	}
+	part := func(total int) Step {
+		if total < 2 {
+			total = 2
+		}
+
+		return Step{Op: "Sleep", C: c, N: rapid.IntRange(1, total-1).Draw(rt, "fpart"), Life: -1}
+	}
+	var out []Step
+	switch rapid.SampledFrom(p.Fragments).Draw(rt, "fkind") {
+	case "perm":
+		pt := int(cfg.permTimeout().Seconds())
+		out = append(out, Step{Op: "CreatePermission", C: c, P: []int{peer}, Life: -1}, part(pt))
+		if rapid.IntRange(0, 1).Draw(rt, "fviaBind") == 0 {
+			out = append(out, Step{Op: "CreatePermission", C: c, P: []int{peer}, Life: -1})
+		} else {
+			out = append(out, Step{Op: "ChannelBind", C: c, P: []int{peer}, Ch: ch, Life: -1})
+		}
+		out = append(out,
+			Step{Op: "Sleep", C: c, Rel: "perm-", P: []int{peer}, N: margin, Life: -1}, data("Send"), data("PeerData"),
+			Step{Op: "Sleep", C: c, Rel: "perm+", P: []int{peer}, N: margin, Life: -1}, data("Send"), data("PeerData"))
+	case "chan":
+		ct := int(cfg.chanTimeout().Seconds())
+		out = append(out, Step{Op: "ChannelBind", C: c, P: []int{peer}, Ch: ch, Life: -1}, part(ct),
+			Step{Op: "ChannelBind", C: c, P: []int{peer}, Ch: ch, Life: -1},
+			Step{Op: "Sleep", C: c, Rel: "chan-", Ch: ch, P: []int{peer}, N: margin, Life: -1}, data("ChannelData"), data("PeerData"),
+			Step{Op: "Sleep", C: c, Rel: "chan+", Ch: ch, P: []int{peer}, N: margin, Life: -1}, data("ChannelData"), data("PeerData"))
+		if rapid.IntRange(0, 1).Draw(rt, "frebind") == 0 {
+			out = append(out, Step{Op: "ChannelBind", C: c, P: []int{peer2}, Ch: ch, Life: -1}, Step{Op: "ChannelBind", C: c, P: []int{peer}, Ch: ch2, Life: -1})
+		}
+	default: // alloc
+		life := rapid.SampledFrom([]int64{-1, 30, 60, 600, 3599, 3600}).Draw(rt, "flife")
+		life2 := rapid.SampledFrom([]int64{-1, 30, 61, 599, 3600, 86400}).Draw(rt, "flife2")
+		out = append(out, Step{Op: "Allocate", C: c, Life: life}, Step{Op: "CreatePermission", C: c, P: []int{peer}, Life: -1},
+			Step{Op: "Sleep", C: c, Rel: "alloc-", N: margin, Life: -1}, Step{Op: "Refresh", C: c, Life: life2},
+			Step{Op: "Sleep", C: c, Rel: "alloc-", N: margin + 1, Life: -1}, Step{Op: "CreatePermission", C: c, P: []int{peer}, Life: -1},
+			Step{Op: "Sleep", C: c, Rel: "alloc-", N: margin, Life: -1}, data("Send"), data("PeerData"),
+			Step{Op: "Sleep", C: c, Rel: "alloc+", N: margin, Life: -1}, data("Send"), data("PeerData"), Step{Op: "Refresh", C: c, Life: -1},
+			Step{Op: "Allocate", C: c, Life: -1}, data("Send"), data("PeerData"))
+	}
+
+	return out
 }
